@@ -14,15 +14,43 @@ import IndicatifModel.Model.Estimator
 /-! Line-protocol driver: one case per input line, one model observation per output line. -/
 open IndicatifModel
 
+def parseLFix (s : String) : Limiter.LFix :=
+  if s = "FX=current" then Limiter.LFix.current else
+  { f6 := (s.drop 3).toString.toList.contains 'n', f7 := (s.drop 3).toString.toList.contains 'o' }
+
+/-- `C05 FX rate t0 t…` → allow/skip per call of the draw limiter -/
 def runC05 (toks : List String) : String :=
-  match toks.map String.toNat? with
-  | some rate :: some t0 :: ts =>
-    if rate = 0 then "bad-rate" else
-    let times := ts.filterMap id
-    if times.length ≠ ts.length then "bad-op" else
-    let c : Limiter.Cfg := { I := Limiter.drawInterval rate, B := 20 }
-    let (bs, _) := Limiter.run c { cap := 20, prev := t0 } times
-    String.ofList (bs.map (fun b => if b then '1' else '0'))
+  match toks with
+  | fxs :: rest =>
+    match rest.map String.toNat? with
+    | some rate :: some t0 :: ts =>
+      if rate = 0 then "bad-rate" else
+      let times := ts.filterMap id
+      if times.length ≠ ts.length then "bad-op" else
+      let (bs, _) := Limiter.run (Limiter.drawCfg (parseLFix fxs) rate) { cap := 20, prev := t0 } times
+      String.ofList (bs.map (fun b => if b then '1' else '0'))
+    | _ => "bad-op"
+  | _ => "bad-op"
+
+/-- `C05P FX rate t0 t…` → per `inc` call: did the position gate let a tick through, was a frame painted -/
+def runC05P (toks : List String) : String :=
+  match toks with
+  | fxs :: rest =>
+    match rest.map String.toNat? with
+    | some rate :: some t0 :: ts =>
+      if rate = 0 then "bad-rate" else
+      let times := ts.filterMap id
+      if times.length ≠ ts.length then "bad-op" else
+      let fx := parseLFix fxs
+      let (_, _, g, p) := times.foldl (fun (acc : Limiter.St × Limiter.St × List Char × List Char) t =>
+        let (gs, ds, g, p) := acc
+        let r := Limiter.allow (Limiter.posCfg fx) gs (t - t0)
+        if r.1 then
+          let d := Limiter.allow (Limiter.drawCfg fx rate) ds t
+          (r.2, d.2, g ++ ['1'], p ++ [if d.1 then '1' else '0'])
+        else (r.2, ds, g ++ ['0'], p ++ ['0'])) (({ cap := 10, prev := 0 } : Limiter.St), ({ cap := 20, prev := t0 } : Limiter.St), [], [])
+      String.ofList g ++ " " ++ String.ofList p
+    | _ => "bad-op"
   | _ => "bad-op"
 
 /-- `FX=<letters>`: which repairs the code under test contains (a=F4 b=F23 c=F22 d=F1–F3 e=F26/27) -/
@@ -77,7 +105,7 @@ def runBAR (rest : String) : String :=
       | some W, some H, some HZ, some T0, some TPL, some onFinish, some bops =>
         let fx := parseFx fxs
         let lim := if HZ = 0 then none else
-          some (({ I := Limiter.drawInterval HZ, B := 20 } : Limiter.Cfg), ({ cap := 20, prev := T0 } : Limiter.St))
+          some (Limiter.drawCfg Limiter.LFix.current HZ, ({ cap := 20, prev := T0 } : Limiter.St))
         let bar : Bar := { len := if len = "none" then none else len.toNat?, tpl := templates.getD TPL [],
                            onFinish := onFinish, start := T0, target := some { W := W, H := H, limiter := lim, fx := fx } }
         let w := (World.mk bar (Term.init W H) T0 [] 0).run bops
@@ -113,7 +141,7 @@ def runMULTI (rest : String) : String :=
       | some W, some H, some HZ, some T0, some mops =>
         let fx := parseFx fxs
         let lim := if HZ = 0 then none else
-          some (({ I := Limiter.drawInterval HZ, B := 20 } : Limiter.Cfg), ({ cap := 20, prev := T0 } : Limiter.St))
+          some (Limiter.drawCfg Limiter.LFix.current HZ, ({ cap := 20, prev := T0 } : Limiter.St))
         let w0 : MWorld := { multi := { target := { W := W, H := H, limiter := lim, fx := fx } }, term := Term.init W H, now := T0 }
         let w := w0.run mops
         s!"calls={w.calls} panicked={w.panicked} " ++ " ; ".intercalate (w.snaps.map showSnap)
@@ -352,6 +380,7 @@ def runADAPT (rest : String) : String :=
 def handle (line : String) : String :=
   match line.trimAscii.toString.splitOn " " with
   | "C05" :: rest => runC05 rest
+  | "C05P" :: rest => runC05P rest
   | "TPL" :: rest => runTPL rest
   | "EST" :: _ => runEstimator ((line.trimAscii.toString.drop 3).toString)
   | "PAD" :: rest => runPAD rest
